@@ -26,25 +26,53 @@ node outside the state (separation-style invariant `Inv` / frame `Res`).
   `C03_rebuild_seq_attrvalues`; the conclusion compares every element's attributes **as a map**
   (`Tree.simList AttrsEq`), because `None` / `false` removes an attribute and a later `Some` / `true`
   appends it at the end of the list.
+* **Attributes, stage 2b** — item-wise `class` / `style`: `class:name=bool` toggles,
+  `style:name=value` and `style:name=Option<value>` properties, next to named attributes and
+  whole-value `class` / `style` strings, any number of items per element, as long as the
+  *footprints* of the items of one element (named key, whole `class`, one class token, whole
+  `style`, one normalised style property) are pairwise disjoint — within the old value, within the
+  new value, and across the two for every element the rebuild retains (`ItemAttrs`, `ItemPair`,
+  decidable: `View.inFragment3`, `View.pairItems`).  Toggle names are valid tokens, property names
+  / values cannot break out of their declaration (`itemOk`).  Renames (toggle name, property name,
+  also to a name that differs in case only), blank property values (= removal) and optional
+  properties are covered.  `C03_build_mount_items`, `C03_rebuild_eq_fresh_items`,
+  `C03_rebuild_seq_items`; the conclusion compares every element on **cells** (`Tree.simList
+  AttrsSim`: named attributes as a map, `class` as a token set, `style` as a declaration map — the
+  oracle's normal form).  Underneath: the string round trips `classTokens_join` (`classList`
+  add / remove re-joins the token list), `styleDecls_styleText` / `styleDecls_ok` (`style.setProperty`
+  / `removeProperty` re-serialise the declaration list; `setCssProperty_attrs`,
+  `removeCssProperty_attrs`), the per-item cell semantics `buildAttr_cells` / `rebuildAttr_cells`
+  (`Proofs/ViewItems.lean`) and the list induction `buildAttrs_cells` / `rebuildAttrs_cells`
+  (`Proofs/ViewAttrs3.lean`).  The hypothesis on retained elements is exactly what the core needs:
+  `rebuild_core` asks `AttrsRebuild R` only for *pairs* of old / new items of retained elements
+  (`PairEl`), `rebuild_spec` is the special case of one predicate on both.
+* **Types** (widened after seed round 2): text children of every provenance are one model type
+  (`String`, `&'static str`, `Cow<'static, str>`, `Arc<str>`: a rebuild may depend on contents only);
+  arrays `[T; N]` are `Ty.arr n t` with tuple values, incl. the node-less `[T; 0]` in any tuple
+  position (`insert_before_this` asks every member in turn).  `Ty.wf` requires the alternatives of
+  `Option` / `Either` / `AnyView` to be **nodeful** (`Ty.nodeful`: at least one DOM node in every
+  value, `roots_ne_nil`), because the code loses its position otherwise: F-C03-6
+  `nodeless-old-branch` (`C03_nodeless_old_branch_witness*`, hooks/c03_nodeless_old_branch_demo.rs).
 * The proof is parametric in the attribute fragment and in the relation on attribute lists:
-  `rebuild_spec` takes any predicate `Good` with `AttrsFresh R` / `AttrsRebuild R`.
+  `rebuild_core` takes any `P`, `Q` with `AttrsFresh R` on the new elements / `AttrsRebuild R` on the
+  retained pairs.
 
 ## What is OPEN / refuted
 
-* Stage 2b — item-wise `class` / `style` (`(name, bool)` toggles, `(name, value)` /
-  `(name, Option<value>)` style properties, and any element with several writers of `class` or
-  `style`) is **not proved** (needs round-trip lemmas for the class-token / style-declaration
-  strings), and the statement over *all* attribute shapes is **false of the code**:
+* The statement over *all* attribute shapes is **false of the code**:
   `C03_rebuild_eq_fresh_stmt` is the full statement (executable form),
   `C03_rebuild_eq_fresh_stmt_false` refutes it by a kernel-checked witness (F-C03-1); F-C03-2 and
   F-C03-5 are further remaining classes (props/C03.known; class predicates `classOverwrite`,
-  `styleOverwrite`, `dupItem`, `dupItemPair` in `Model/View.lean`).  F-C03-1 (AnyView part),
-  F-C03-3 and F-C03-4 are repaired in /repo: `*_fixed` theorems, and `*_witness_old` regression
-  theorems about the pre-repair `rebuildAttrOld`.  These shapes are covered by the correspondence
-  run only.
+  `styleOverwrite`, `dupItem`, `dupItemPair` in `Model/View.lean`).  These are precisely the shapes
+  with overlapping footprints that `inFragment3` / `pairItems` exclude (examples at the end of the
+  file); they are covered by the correspondence run only.  F-C03-1 (AnyView part), F-C03-3 and
+  F-C03-4 are repaired in /repo: `*_fixed` theorems, and `*_witness_old` regression theorems about
+  the pre-repair `rebuildAttrOld`.
+* Not covered by stage 2b: toggle names that are not a single token, style property names / values
+  containing `;` (names also `:`), non-ASCII whitespace (assumption of the string model).
 * Stage 4 (`keyed`) is not in the Lean `View` type (modelled over an abstract child list in
   `Model/Keyed.lean`, C11; adding a constructor would break the exhaustive matches of the C05
-  files that import `Model/View.lean`); correspondence only.
+  files that import `Model/View.lean`); correspondence only.  `StaticVec` / `Fragment`: not modelled.
 -/
 namespace Leptos.View
 open Leptos.Dom
@@ -677,6 +705,35 @@ theorem C03_rebuild_seq_items (ty : Ty) (p : Id) (pre post : List Id) (n0 : Nat)
       hta htb hb hab hok hs
     exact C03_rebuild_seq_items ty p pre post n0 preT postT bs b _ _ htb hrest hok' hs'
 
+/-- **C03_update_eq_fresh**, stage 2b — the property in one statement: build `a`, mount it
+between any siblings, rebuild with `b`; the parent then serialises, cell for cell (named attributes,
+class tokens, style declarations of every element), to what building `b` fresh and mounting it in
+the same place serialises to. -/
+theorem C03_update_eq_fresh_items (a b : View) (ty : Ty) (d : Dom) (p : Id) (pre post : List Id)
+    (rp : NodeRec) (n0 : Nat) (preT postT : List Tree)
+    (hta : HasTy a ty) (htb : HasTy b ty)
+    (ha : a.inFragment3 = true) (hb : b.inFragment3 = true) (hab : a.pairItems b = true)
+    (hp : d.get? p = some rp) (hpe : rp.kind.isElem = true) (hk : rp.kids = pre ++ post)
+    (hplt : p < d.next) (hsl : ∀ x, x ∈ pre ++ post → x < d.next)
+    (hanchor : Anchor d p post.head? pre post)
+    (hs : SiblingsOk d [] p pre post n0 preT postT) (m : Nat) (hm : max n0 b.depth ≤ m) :
+    let d1 := mount (build a d).2 (build a d).1 p post.head?
+    let d2 := (rebuild false b (build a d).2 d1).1
+    let e1 := mount (build b d).2 (build b d).1 p post.head?
+    ∃ ts us, serListN m d2 (d2.kidsOf p) = some ts ∧ serListN m e1 (e1.kidsOf p) = some us ∧
+      Tree.simList AttrsSim ts us := by
+  intro d1 d2 e1
+  obtain ⟨hok1, hs1, _⟩ := C03_build_mount_items a d p pre post rp n0 preT postT ha hp hpe hk hplt
+    hsl hanchor hs
+  obtain ⟨_, _, h2⟩ := C03_rebuild_eq_fresh_items a b ty _ d1 p pre post n0 preT postT hta htb hb
+    hab hok1 hs1
+  obtain ⟨_, _, h3⟩ := C03_build_mount_items b d p pre post rp n0 preT postT hb hp hpe hk hplt hsl
+    hanchor hs
+  obtain ⟨ts, e2, s2⟩ := h2 m hm
+  obtain ⟨us, e3, s3⟩ := h3 m hm
+  exact ⟨ts, us, e2, e3, Tree.simList.trans (fun _ _ _ h1 h2 c => (h1 c).trans (h2 c)) _ _ _ s2
+    (Tree.simList.symm (fun _ _ h c => (h c).symm) _ _ s3)⟩
+
 /-! ## the full statement, and its refutation -/
 
 /-- executable instance of the property in the canonical context: a root element without
@@ -898,5 +955,29 @@ example :
     (View.elem "div" [.tcls "on" false, .tcls "on" true] .unit).inFragment3 = false ∧
     View.pairItems (.elem "div" [.tcls "a" true, .tcls "b" true] .unit)
       (.elem "div" [.tcls "b" true, .tcls "a" true] .unit) = false := by decide
+
+/-! non-vacuity for stage 2b, `style:name=value` items: a property is changed, renamed (also to a
+name that only differs in case), given a blank value (= removed), an optional property appears and
+disappears, all next to class toggles; a property item next to a whole `style` string is excluded
+(style-overwrite) and so is the same property twice (dup-item) -/
+def exS1 : View := .elem "div" [.psty "color" "red", .psty "Width" " 1px", .opsty "margin" none,
+  .tcls "a" true, .opsty "top" (some "0")] .unit
+def exS2 : View := .elem "div" [.psty "COLOR" "blue", .psty "height" "2px",
+  .opsty "margin" (some "3px"), .tcls "b" true, .opsty "top" none] .unit
+def exS3 : View := .elem "div" [.psty "color" "  ", .psty "height" "2px", .opsty "left" (some "3px"),
+  .tcls "b" false, .opsty "top" (some "1")] .unit
+
+set_option maxRecDepth 32768 in
+example : exS1.inFragment3 = true ∧ exS2.inFragment3 = true ∧ exS3.inFragment3 = true := by decide
+set_option maxRecDepth 32768 in
+example : exS1.pairItems exS2 = true ∧ exS2.pairItems exS3 = true ∧ exS3.pairItems exS1 = true := by
+  decide
+example : updateSeqEqFresh exS1 [exS2, exS3, exS1, exS3, exS2] = true := by decide +kernel
+set_option maxRecDepth 32768 in
+example :
+    (View.elem "div" [.sty "color: red", .psty "width" "1px"] .unit).inFragment3 = false ∧
+    (View.elem "div" [.psty "Color" "red", .psty "color " "blue"] .unit).inFragment3 = false ∧
+    (View.elem "div" [.psty "a;b" "red"] .unit).inFragment3 = false ∧
+    (View.elem "div" [.psty "color" "red; width: 1px"] .unit).inFragment3 = false := by decide
 
 end Leptos.View
